@@ -1,6 +1,7 @@
 """C17 -- failed placements are rolled back completely; accepted ones never move."""
 from vlib.framework import PUnit, LUnit, BUnit
 from contracts import random_walk as W
+from bounded import b_build
 
 
 def build(tier, seed):
@@ -8,5 +9,6 @@ def build(tier, seed):
         PUnit("rewind", [W.REWIND], W.REG),
         PUnit("random-walk-loop", [W.RANDOM_WALK], W.REG),
         LUnit("cnt-monotone", W.lemma_cnt_monotone),
+    ] + [u for u in b_build.UNITS if u.name == "c17-schedules"] + [
     ]
     return {"units": units, "level": "other", "notes": "pyvc"}
